@@ -916,7 +916,10 @@ m('C04','limit-with-simulcast','rtpconn/webclient.go',
   'R4.5','the limit is requested only','simulcast low stream additionally pinned')
 m('C04','steer-removed',R,
   '\t\tif layer.limitSid && layer.wantedSid != 0 {\n\t\t\tlayer.wantedSid = 0\n\t\t\tt.setLayerInfo(layer)\n\t\t} else if !layer.limitSid && layer.sid < layer.maxSid {','\t\tif !layer.limitSid && layer.sid < layer.maxSid {',
-  'R4.5','adjustLayer steers','limited track never steered to layer 0')
+  '','','the self-healing branch is dead code: every stored word with limitSid has wantedSid 0 (installed so by replaceTracks, kept so by Write and adjustLayer)',benign=True)
+m('C04','limited-moved-down',R,
+  '\t\t\tif layer.limitSid {\n\t\t\t\tlayer.wantedSid = 0\n\t\t\t} else {\n\t\t\t\tlayer.wantedSid = layer.sid - 1\n\t\t\t}','\t\t\tlayer.wantedSid = layer.sid - 1',
+  'R4.5','adjustLayer keeps a limited track','a limited track still above layer 0 is sent to sid-1 instead of 0 on congestion')
 m('C04','ceiling-no-floor',R,
   '\t\tif rate < minLossRate {\n\t\t\trate = minLossRate\n\t\t}','',
   'R4.6','maxBitrate.Set in','ceiling decays below the minimum under sustained loss',quick=True)
